@@ -31,6 +31,19 @@ class BuiltinMixin:
     def bi_implies(self, args, kwargs, st):
         yield V(BOOL, z3.Implies(self.truthy(args[0], st), self.truthy(args[1], st))), st
 
+    def bi_tail_alias(self, args, kwargs, st):
+        """tail_alias(f, xs): f is the bound `append` of xs[-1] and xs has not been restructured since it was taken
+        (an aliasing invariant, decided on the symbolic heap, not by the solver).  After a loop havoc the invariant
+        re-establishes the alias for the havocked container."""
+        f, xs = args
+        ok = False
+        if isinstance(f, VFunc) and f.kind == "tailappend" and isinstance(xs, VRef):
+            cell = st.heap.get(f.obj.ref)
+            if isinstance(cell, tuple) and cell[0] == "tailalias":
+                ok = cell[1] == xs.ref and st.heap[xs.ref] is cell[2]
+        n = self.as_seq(xs, st, "tail_alias").length()
+        yield V(BOOL, z3.And(z3.BoolVal(ok), n >= 1)), st
+
     def bi_iff(self, args, kwargs, st):
         yield V(BOOL, self.truthy(args[0], st) == self.truthy(args[1], st)), st
 
